@@ -100,6 +100,7 @@ type Profile struct {
 	RelURLs      bool // all reference forms (otherwise root-relative only)
 	MediaInText  bool // media inside paragraphs / list items
 	Punct        bool // attach / detach punctuation around words
+	Unlikely     int  // per-mille of wrappers that carry an "unlikely content" class / id / role
 	ShortBias    int  // per-mille of short paragraphs
 	MinBlocks    int
 	MaxBlocks    int
@@ -228,7 +229,7 @@ func (g *ArtGen) noiseClass(class string) string {
 // ---------------------------------------------------------------------------
 // URL references (C06)
 
-var refForms = []string{"path", "dot", "dotdot", "root", "scheme", "query", "abs", "frag", "data", "js", "bad"}
+var refForms = []string{"path", "dot", "dotdot", "root", "scheme", "query", "abs", "frag", "data", "js", "bad", "embedded", "proxy", "comma"}
 
 func splitPage(page string) (origin, dir, path string) {
 	// page is http://host/a/b/c.html[?q][#f]
@@ -292,6 +293,15 @@ func (g *ArtGen) ref(carrier, attr, where, ext string, forms []string) string {
 	case "bad":
 		raw = "http://[bad/" + id + ext
 		exp = raw
+	case "embedded": // a relative reference that carries another URL in its query
+		raw = "/out/" + id + "?to=http://other.example/x&u=https://third.example/y"
+		exp = origin + raw
+	case "proxy": // ... or in its path
+		raw = "/proxy/800x600/https://cdn.example.net/" + id + ext
+		exp = origin + raw
+	case "comma": // commas inside a URL (CDN transformation paths)
+		raw = "/cdn/w_400,h_300/" + id + ext
+		exp = origin + raw
 	}
 	ri := &RefInfo{ID: id, Raw: raw, Expect: exp, Form: form, Carrier: carrier, Where: where, Attr: attr}
 	g.L.Refs[id] = ri
@@ -299,9 +309,9 @@ func (g *ArtGen) ref(carrier, attr, where, ext string, forms []string) string {
 	return raw
 }
 
-var linkForms = []string{"path", "dot", "dotdot", "root", "scheme", "query", "abs", "frag", "data", "bad", "js", "path", "root"}
-var mediaForms = []string{"path", "dot", "dotdot", "root", "scheme", "abs", "path", "root", "query"}
-var srcsetForms = []string{"path", "dot", "dotdot", "root", "scheme", "abs"}
+var linkForms = []string{"path", "dot", "dotdot", "root", "scheme", "query", "abs", "frag", "data", "bad", "js", "path", "root", "embedded", "proxy", "comma"}
+var mediaForms = []string{"path", "dot", "dotdot", "root", "scheme", "abs", "path", "root", "query", "embedded", "proxy", "comma"}
+var srcsetForms = []string{"path", "dot", "dotdot", "root", "scheme", "abs", "comma", "proxy"}
 
 func (g *ArtGen) where() string {
 	if g.curFig >= 0 {
@@ -401,6 +411,30 @@ func (g *ArtGen) paragraph(n int) {
 	}
 	g.w("</p>\n")
 	g.curPara = prev
+}
+
+// wrapped writes a block whose whole text sits inside one inline element
+// (the output code re-attaches the block ancestors of such text).
+func (g *ArtGen) wrapped() {
+	g.L.Kinds["wrapped"]++
+	n := 20 + g.r.Intn(50)
+	switch g.r.Intn(5) {
+	case 0:
+		g.L.Paras = append(g.L.Paras, ParaInfo{Place: g.curPlace(), Simple: !g.P.AttrNoise, Shape: "i"})
+		prev := g.curPara
+		g.curPara = len(g.L.Paras) - 1
+		g.w("<p" + g.noise() + "><b" + g.noise() + ">" + g.toks(n) + "</b></p>\n")
+		g.curPara = prev
+	case 1:
+		g.w("<div" + g.noise() + "><span" + g.noise() + "><em" + g.noise() + ">" + g.toks(n) + "</em></span></div>\n")
+	case 2:
+		h := 2 + g.r.Intn(2)
+		g.w(fmt.Sprintf(`<h%d%s><a href="%s"%s><strong>%s</strong></a></h%d>`+"\n", h, g.noise(), g.ref("a", "href", g.where(), ".html", linkForms), g.noise(), g.toks(2+g.r.Intn(6)), h))
+	case 3:
+		g.w(`<p` + g.noise() + `>` + g.toks(n) + ` <a href="` + g.ref("a", "href", g.where(), ".html", linkForms) + `"` + g.noise() + `><span><em>` + g.toks(2+g.r.Intn(4)) + `</em></span></a></p>` + "\n")
+	default:
+		g.w(`<h3` + g.noise() + `><a href="` + g.ref("a", "href", g.where(), ".html", linkForms) + `"` + g.noise() + `><span` + g.noise() + `><em>` + g.toks(3+g.r.Intn(5)) + `</em></span></a></h3>` + "\n")
+	}
 }
 
 func (g *ArtGen) paraLen() int {
@@ -518,7 +552,11 @@ func (g *ArtGen) media(inText bool) {
 		g.nref++
 		id := fmt.Sprintf("u%dz", g.nref)
 		g.addMedia(id, "embed")
-		g.w(`<blockquote` + g.noiseClass("twitter-tweet") + `><p` + g.noise() + `>` + g.toksK(3+g.r.Intn(5), KPlaceholder, "tweet") + `</p>`)
+		g.w(`<blockquote` + g.noiseClass("twitter-tweet") + `><p` + g.noise() + `>` + g.toksK(3+g.r.Intn(5), KPlaceholder, "tweet"))
+		if g.P.Hidden && g.r.Chance(1, 2) {
+			g.w(`<span><script>` + g.toksK(1, KHidden, "script") + `</script></span><style>` + g.toksK(1, KHidden, "style") + `</style>`)
+		}
+		g.w(`</p>`)
 		if g.P.Hidden && g.r.Chance(1, 2) {
 			g.w(`<script>` + g.toksK(2, KHidden, "script") + `</script><style>` + g.toksK(1, KHidden, "style") + `</style>`)
 		}
@@ -576,7 +614,7 @@ func (g *ArtGen) figure() {
 // ---------------------------------------------------------------------------
 // hidden and skipped carriers (C04)
 
-var hiddenBlockKinds = []string{"script", "style", "comment", "hidden-attr", "display-none", "vis-hidden", "vis-collapse", "aria-hidden", "display-none-nested", "figcaption-hidden"}
+var hiddenBlockKinds = []string{"script", "style", "comment", "hidden-attr", "display-none", "vis-hidden", "vis-collapse", "aria-hidden", "display-none-nested", "figcaption-hidden", "script-styled", "style-styled"}
 var skippedKinds = []string{"form", "input", "button", "select", "textarea", "noscript", "svg", "object", "embed", "applet", "iframe"}
 
 func (g *ArtGen) hiddenCarrier(kind string) {
@@ -599,6 +637,10 @@ func (g *ArtGen) hiddenCarrier(kind string) {
 		g.w(`<div style="color:red; visibility: collapse">` + t(3) + `</div>`)
 	case "aria-hidden":
 		g.w(`<div aria-hidden="true">` + t(3) + `</div>`)
+	case "script-styled":
+		g.w(`<script style="display:block">var y = "` + t(2) + `";</script>`)
+	case "style-styled":
+		g.w(`<style style="display: block" media="all">.` + t(1) + ` { color: blue }</style>`)
 	case "figcaption-hidden":
 		g.w(`<figcaption hidden>` + t(2) + ` <a href="/hid/cap.html">` + t(1) + `</a></figcaption>`)
 	case "display-none-nested":
@@ -679,11 +721,19 @@ func (g *ArtGen) dataTable() {
 	}
 	ti.Rows = append(ti.Rows, hdr)
 	for r := 0; r < rows; r++ {
-		g.w("<tr" + g.noise() + ">")
+		ah := ""
+		if g.r.Chance(1, 8) {
+			ah = ` aria-hidden="false"`
+		}
+		g.w("<tr" + ah + g.noise() + ">")
 		var row [][]int
 		for c := 0; c < cols; c++ {
 			a := len(g.L.Toks)
-			g.w("<td" + g.noise() + ">")
+			ah = ""
+			if g.r.Chance(1, 12) {
+				ah = ` aria-hidden="false"`
+			}
+			g.w("<td" + ah + g.noise() + ">")
 			switch g.r.Intn(8) {
 			case 0:
 				g.w(g.toks(1) + ` <a href="` + g.ref("a", "href", "table", ".html", linkForms) + `"` + g.noise() + `>` + g.toks(1) + `</a>`)
@@ -810,6 +860,7 @@ func (g *ArtGen) block() {
 	p := g.P
 	opts := []opt{
 		{10, true, func() { g.paragraph(g.paraLen()) }},
+		{2, p.Inline, g.wrapped},
 		{2, p.Headings, func() {
 			g.L.Kinds["heading"]++
 			h := 2 + g.r.Intn(3)
@@ -840,7 +891,20 @@ func (g *ArtGen) block() {
 		{2, p.Wrappers && g.depth < 3, func() {
 			g.L.Kinds["wrapper"]++
 			tag := []string{"div", "section", "article", "div"}[g.r.Intn(4)]
-			g.w("<" + tag + g.noise() + ">")
+			if g.r.Intn(1000) < g.P.Unlikely {
+				g.L.Kinds["unlikely-wrapper"]++
+				m := []string{"sidebar", "story-extra", "footer", "related", "site-header", "sponsor"}[g.r.Intn(6)]
+				switch g.r.Intn(3) {
+				case 0:
+					g.w("<" + tag + ` class="` + m + `">`)
+				case 1:
+					g.w("<" + tag + ` id="` + m + `">`)
+				default:
+					g.w("<" + tag + ` role="` + []string{"complementary", "navigation", "dialog"}[g.r.Intn(3)] + `">`)
+				}
+			} else {
+				g.w("<" + tag + g.noise() + ">")
+			}
 			g.depth++
 			g.block()
 			g.block()
